@@ -473,7 +473,7 @@ def scenarios(tier):
                         for op in ("estimate_liquidity", "estimate_amount"):
                             out.append(Scenario(f"{op}/{rg}/half_tick_inside_the_bound/t200010/q{dq}b{db}", op_scenario, params=dict(tick=200010, dq=dq, db=db, fee=fee, op=op, range=rg, half_tick=True), entry=(f"UniLpMarket.{op}",), **kw))
                 if True:  # both decimal orders in every tier: with (18, 6) the pool price is tiny and so is what a botched roll-back loses
-                  out.append(Scenario(f"add_by_tick_poor_wallet/inside/{tag}", op_scenario, params=dict(base, op="add_by_tick", range="inside", poor=True), entry=("UniLpMarket.add_liquidity_by_tick", "Asset.sub"), **kw))
+                  out.append(Scenario(f"add_by_tick_poor_wallet/inside/{tag}", op_scenario, params=dict(base, op="add_by_tick", range="inside", poor=True, **(dict(deposit=DEPOSITS[0]) if (dq, db) == (6, 18) and tier == "quick" else {})), entry=("UniLpMarket.add_liquidity_by_tick", "Asset.sub"), **kw))  # quick, (6,18): concrete offer, symbolic wallets (the rejection paths are the wallets' business)
                 for op in ("buy", "sell", "even_rebalance"):
                     out.append(Scenario(f"{op}/{tag}", op_scenario, params=dict(base, op=op, range="inside"), entry=(f"UniLpMarket.{op}",), **kw))
                 for d in ("b2q", "q2b"):
